@@ -44,8 +44,8 @@ class Cfg:
     def __init__(self, seed, thorough):
         self.pid = 640 + (seed % 11) * 3
         self.thorough = thorough
-        self.methods = list(METHODS) if thorough else ["name", "cpu_times", "ppid", "uids", "gids", "memory_info",
-                                                        "memory_full_info", "memory_maps", "num_ctx_switches"]
+        self.methods = (list(METHODS) if thorough else ["name", "cpu_times", "ppid", "uids", "gids", "memory_info",
+                                                         "memory_full_info", "memory_maps", "num_ctx_switches"]) + ["cmdline"]
         self.asdict = list(ASDICT) if thorough else ["nu", "nc", "mm", "all", "str", "bad", "empty"]
         self.max_nest = 2
 
@@ -199,6 +199,15 @@ class Exec:
         return None
 
     def do_call(self, m, log0):
+        if m == "cmdline":
+            # not cached by a block: always answers for the process as it is now
+            out = outcome(self.obj.cmdline)
+            want = "NoSuchProcess" if self.gone else ("ZombieProcess" if self.p.zombie else ["/bin/proc"])
+            got = out[1] if out[0] == "ok" or out[0] == "exc" else None
+            if got != want:
+                self.viol("cmdline:%s-expected-%s" % (out[1] if out[0] == "exc" else "value", want if isinstance(want, str) else "value"),
+                          "cmdline() -> %r, expected %r (in block: %r)" % (out, want, self.block is not None))
+            return "call:cmdline:%s" % (out[1] if out[0] == "exc" else "ok")
         srcs, ext = METHODS[m]
         fresh_needed = [s for s in srcs if not (self.block is not None and s in self.block and s in CACHED_SRCS)]
         if self.block is not None and m in TOP_MEMO:
@@ -295,6 +304,11 @@ class Exec:
                      any(not (self.block is not None and s in self.block and s in CACHED_SRCS) for s in METHODS[n][0])]
             if fresh and not (self.block is not None):
                 self.viol("as_dict-no-NSP", "as_dict(%r) returned %r for a gone process" % (ASDICT[a], freeze(d)))
+        if "cmdline" in names and not self.gone:
+            want = "AD" if self.p.zombie else ["/bin/proc"]
+            if d.get("cmdline") != want:
+                self.viol("as_dict-cmdline:%s" % ("zombie-not-ad_value" if self.p.zombie else "value"),
+                          "as_dict()['cmdline'] -> %r, expected %r" % (d.get("cmdline"), want))
         # values: same rules as direct calls; all attributes that share a source agree
         own_block = self.block is None
         if own_block:
